@@ -100,6 +100,8 @@ def generate(seed, tier):
     if fault is None and swarm.random() < 0.25:
         limit = swarm.randint(0, len(table) + 1)  # rows beyond the validation limit are still data rows (and counted)
     return {"limit": limit, "cid": spec, "table": table, "reads": reads, "shared_cid": swarm.random() < 0.5,
+            # the Reader has been iterated before (k rows, or -1: completely): the counters are those of the judged pass
+            "prepass": swarm.choice([None, None, None, None, -1, 1, 2]),
             "create_up_front": swarm.random() < 0.4, "fault": fault,
             "ods_features": sorted(swarm.sample(["colruns", "colstyle", "stored", "rowruns", "links"], swarm.randint(0, 2)))}
 
@@ -263,6 +265,18 @@ def execute(scenario):
                     cid = lib.load_cid(tabular.cid_rows(spec))
                     shared_cid = cid
                 run, file_name = prepare(read, cid, fs)
+            prepass = scenario.get("prepass")
+            if prepass is not None and fault is None and read["api"] == "Reader" and read["source"] == "path":
+                def first_pass(run=run, prepass=prepass):
+                    taken = 0
+                    for _ in run.reader.rows():
+                        taken += 1
+                        if prepass >= 0 and taken >= prepass:
+                            break
+
+                lib.call(first_pass)
+                run.generator = run.reader.rows()
+                result.probe("second-pass-on-the-same-reader")
             while run.step():
                 pass
             run.close()
